@@ -141,7 +141,7 @@ func InjectJarMember(path string) ([]byte, error) {
 // MANIFEST.MF, a second section of the same name carrying the digest of the new content. The .SF and the signature
 // block are left as they are. Whatever a verifier does with a repeated name, it must not end up checking the file
 // against one section and the .SF against the other.
-func ForgeDuplicateSection(path string) ([]byte, error) {
+func ForgeDuplicateSection(path string, after bool) ([]byte, error) {
 	zr, err := zip.OpenReader(path)
 	if err != nil {
 		return nil, err
@@ -178,10 +178,17 @@ func ForgeDuplicateSection(path string) ([]byte, error) {
 	forged := []byte("Name: " + victim + nl + "SHA-256-Digest: " + b64sum(forgedContent) + nl + nl)
 	var nm []byte
 	for i, sec := range secs {
-		if i == at {
+		if i == at && !after {
 			nm = append(nm, forged...)
 		}
 		nm = append(nm, sec...)
+	}
+	if after {
+		// at the very end of the manifest: after the section the .SF vouches for
+		if !bytes.HasSuffix(nm, []byte(nl+nl)) {
+			nm = append(nm, nl...)
+		}
+		nm = append(nm, forged...)
 	}
 	var buf bytes.Buffer
 	zw := zip.NewWriter(&buf)
